@@ -6,6 +6,31 @@
 //! following/preceding items, printed forms) are compared line by line; a
 //! digest of the raw-bytes stream is written out so that the driver can
 //! compare the two configurations with each other.
+//!
+//! Routes x data (coverage extension): besides the installed (fat) files and
+//! the bundled (slim, rearguard) data, the `zic -b slim` compilation of the
+//! installed tzdata.zi and the synthetic zones (slim and fat) are materialised
+//! as a zoneinfo directory and as a concatenated file (adversarial layout:
+//! shifted index, data block in reverse order with padding, non-zero raw
+//! offsets, trailing zone.tab) and every zone is read through
+//! `from_dir`, `from_concatenated_path`, `TimeZone::tzif` and `include!`.
+//! `TimeZone ==` is demanded between runtime routes that were given the same
+//! identifier and the same bytes (documented: identifiers and checksums).
+//!
+//! Names: one oracle for every query - `get(q)` succeeds exactly when `q`
+//! equals an identifier of the database ignoring ASCII case, and then returns
+//! that identifier's zone under its canonical spelling. Queried per database
+//! kind: every identifier, its case variants (warm database, and as the first
+//! query on a cold database, where the variant reaches the name index / the
+//! linear scan instead of the cache of loaded zones), mutations (neighbouring
+//! separators, path forms, truncations); and on a synthetic database of names
+//! that are neighbours in every sort order the complete set of short strings.
+//!
+//! POSIX: besides the C03 alphabet and every footer of every corpus, the
+//! *spellings* of the grammar; the printed form is parsed by both entry points
+//! and by the reference reader, and printing is a fixed point.
+//!
+//! `VFCFG_SCRATCH` overrides the scratch directory (/verif/.build/zones).
 
 #[path = "../../vf/src/guard.rs"]
 #[allow(dead_code)]
@@ -25,7 +50,7 @@ use rayon::prelude::*;
 use refmodel::{cal, tz as rtz};
 use report::Report;
 use serde_json::json;
-use std::collections::BTreeMap;
+use std::collections::{BTreeMap, BTreeSet, HashMap};
 use std::hash::{Hash, Hasher};
 use std::path::{Path, PathBuf};
 use std::sync::Mutex;
@@ -59,8 +84,13 @@ fn walk(dir: &Path, base: &Path, skip_top: &[&str], out: &mut Vec<(String, Vec<u
     }
 }
 
+/// Scratch directory for generated zoneinfo trees / concatenated files.
+fn scratch_dir() -> PathBuf {
+    PathBuf::from(std::env::var("VFCFG_SCRATCH").unwrap_or_else(|_| "/verif/.build/zones".to_string()))
+}
+
 fn zic(src: &str, mode: &str, tag: &str) -> (PathBuf, Vec<(String, Vec<u8>)>) {
-    let dir = PathBuf::from(format!("/verif/.build/zones/c18-{}-{}-{}", tag, mode, std::process::id()));
+    let dir = scratch_dir().join(format!("c18-{}-{}-{}", tag, mode, std::process::id()));
     let _ = std::fs::remove_dir_all(&dir);
     std::fs::create_dir_all(&dir).unwrap();
     let st = std::process::Command::new("zic").args(["-b", mode, "-d"]).arg(&dir).arg(src).output().expect("zic");
@@ -100,6 +130,79 @@ fn write_concatenated(path: &Path, zones: &[(String, Vec<u8>)]) {
     std::fs::write(path, out).unwrap();
 }
 
+/// The same format with everything the format leaves free chosen
+/// differently: the index does not start right after the header, the data
+/// block holds the zones in reverse index order with padding between them,
+/// the (unused) raw-offset field is non-zero and a zone.tab section follows
+/// the data block. A reader that slices `[data_offset + start, +len)` as the
+/// format says reads the same bytes as from the plain layout.
+fn write_concatenated_adversarial(path: &Path, zones: &[(String, Vec<u8>)]) {
+    let kept: Vec<&(String, Vec<u8>)> = zones.iter().filter(|z| z.0.len() <= 39).collect();
+    let mut data = vec![];
+    let mut at: Vec<(u32, u32)> = vec![(0, 0); kept.len()];
+    for (i, (_, bytes)) in kept.iter().enumerate().rev() {
+        data.extend_from_slice(&[0xFFu8; 7][..1 + i % 7]);
+        at[i] = (data.len() as u32, bytes.len() as u32);
+        data.extend_from_slice(bytes);
+    }
+    let mut index = vec![];
+    for (i, (name, _)) in kept.iter().enumerate() {
+        let mut e = [0u8; 52];
+        e[..name.len()].copy_from_slice(name.as_bytes());
+        e[40..44].copy_from_slice(&at[i].0.to_be_bytes());
+        e[44..48].copy_from_slice(&at[i].1.to_be_bytes());
+        e[48..52].copy_from_slice(&(0x0036_EE80u32 + i as u32).to_be_bytes());
+        index.extend_from_slice(&e);
+    }
+    let mut out = vec![];
+    out.extend_from_slice(b"tzdata2025b\0");
+    let index_off = 24u32 + 16;
+    let data_off = index_off + index.len() as u32;
+    let tab_off = data_off + data.len() as u32;
+    out.extend_from_slice(&index_off.to_be_bytes());
+    out.extend_from_slice(&data_off.to_be_bytes());
+    out.extend_from_slice(&tab_off.to_be_bytes());
+    out.extend_from_slice(&[0xEEu8; 16]);
+    out.extend_from_slice(&index);
+    out.extend_from_slice(&data);
+    out.extend_from_slice(b"# zone.tab\nAD\t+4230+00131\tEurope/Andorra\nTZif2 not a zone\n");
+    std::fs::write(path, out).unwrap();
+}
+
+/// Writes the given zones as a zoneinfo directory tree.
+fn materialize(dir: &Path, zones: &[(String, Vec<u8>)]) {
+    let _ = std::fs::remove_dir_all(dir);
+    std::fs::create_dir_all(dir).unwrap();
+    for (name, bytes) in zones {
+        let p = dir.join(name);
+        std::fs::create_dir_all(p.parent().unwrap()).unwrap();
+        std::fs::write(p, bytes).unwrap();
+    }
+}
+
+/// A minimal version-2 TZif file: no transitions, one local time type, footer.
+fn mk_tzif(utoff: i32, abbrev: &str) -> Vec<u8> {
+    let mut out = vec![];
+    for v2 in [false, true] {
+        out.extend_from_slice(b"TZif2");
+        out.extend_from_slice(&[0u8; 15]);
+        // isutcnt, isstdcnt, leapcnt, timecnt, typecnt, charcnt
+        for n in [0u32, 0, 0, 0, 1, abbrev.len() as u32 + 1] {
+            out.extend_from_slice(&n.to_be_bytes());
+        }
+        let _ = v2; // no transitions: the two data blocks have the same layout
+        out.extend_from_slice(&utoff.to_be_bytes());
+        out.push(0);
+        out.push(0);
+        out.extend_from_slice(abbrev.as_bytes());
+        out.push(0);
+    }
+    let p = -(utoff as i64);
+    let (sign, a) = (if p < 0 { "-" } else { "" }, p.abs());
+    out.extend_from_slice(format!("\n{}{}{}:{:02}:{:02}\n", abbrev, sign, a / 3600, a / 60 % 60, a % 60).as_bytes());
+    out
+}
+
 #[derive(Clone)]
 struct Probes {
     instants: Vec<i128>,
@@ -130,7 +233,10 @@ fn probes(models: &[&rtz::Zone], thorough: bool) -> Probes {
             }
             if !pc.recorded {
                 let y = pc.rule_year;
-                let keep = (y0..y0 + 3).contains(&y) || (2037..2040).contains(&y) || y == 2100 || y >= 9997 || (thorough && y % 37 == 0);
+                // every rule year up to the tz-fat horizon (2037): with tz-fat these
+                // are generated table entries (in the runtime parser and in the
+                // macro's copy of it), without it they are evaluated from the rule
+                let keep = (y0..y0 + 3).contains(&y) || (1900..=2040).contains(&y) || y == 2100 || y >= 9997 || (thorough && y % 37 == 0);
                 if !keep {
                     continue;
                 }
@@ -165,6 +271,57 @@ fn probes(models: &[&rtz::Zone], thorough: bool) -> Probes {
     p
 }
 
+/// The same probe construction for a POSIX rule, from the rule itself (the
+/// per-year transition instants of the reference evaluator) instead of a
+/// materialised 20 000-year zone: both transitions of the boundary years of
+/// the supported range, of the years around the epoch, of leap / non-leap /
+/// century years and of the tz-fat horizon.
+fn posix_probes(tz: &rtz::PosixTz) -> Probes {
+    let mut p = Probes { instants: vec![], civils: vec![], iter_starts: vec![] };
+    let tmin = TS_MIN_SEC as i128 * NS;
+    let tmax = TS_MAX_SEC as i128 * NS + 999_999_999;
+    p.instants.extend([tmin, tmin + 1, -1, 0, 1, tmax - 1, tmax]);
+    let dmin = cal::min_day() as i128 * 86400 * NS;
+    let dmax = (cal::max_day() as i128 + 1) * 86400 * NS - 1;
+    p.civils.extend([dmin, dmin + 90_000 * NS, 0, dmax - 90_000 * NS, dmax]);
+    p.iter_starts.extend([tmin, 0, tmax]);
+    if let Some(d) = &tz.dst {
+        let (so, dof) = (tz.std_utoff as i128, d.utoff as i128);
+        for y in [-9999i64, -9998, -9997, 0, 1, 1900, 1969, 1970, 1971, 2000, 2023, 2024, 2037, 2038, 2039, 2100, 9997, 9998, 9999] {
+            let Some((s, e)) = tz.year_transitions(y) else { continue };
+            for (t, o1, o2) in [(s, so, dof), (e, dof, so)] {
+                if t <= TS_MIN_SEC || t > TS_MAX_SEC {
+                    continue;
+                }
+                let b = t as i128 * NS;
+                for dl in [-NS, -NS / 2, -1, 0, 1, NS] {
+                    let x = b + dl;
+                    if x >= tmin && x <= tmax {
+                        p.instants.push(x);
+                    }
+                }
+                p.iter_starts.push(b);
+                if b - 1 >= tmin {
+                    p.iter_starts.push(b - 1);
+                }
+                let (lo, hi) = ((t as i128 + o1.min(o2)) * NS, (t as i128 + o1.max(o2)) * NS);
+                for c in [lo - NS, lo - 1, lo, lo + (hi - lo) / 2, hi - 1, hi, hi + NS] {
+                    if c >= dmin && c <= dmax {
+                        p.civils.push(c);
+                    }
+                }
+            }
+        }
+    }
+    p.instants.sort();
+    p.instants.dedup();
+    p.civils.sort();
+    p.civils.dedup();
+    p.iter_starts.sort();
+    p.iter_starts.dedup();
+    p
+}
+
 fn dt_from_civil_ns(n: i128) -> DateTime {
     let day = n.div_euclid(86400 * NS) as i64;
     let rem = n.rem_euclid(86400 * NS);
@@ -180,6 +337,11 @@ fn stream(tz: &TimeZone, p: &Probes, with_iters: bool, with_name: bool) -> Resul
         let mut out = Vec::with_capacity(p.instants.len() + p.civils.len() + 8);
         if with_name {
             out.push(format!("N {:?}", tz.iana_name()));
+            // printing of the zone itself: Debug, the Temporal printer, classification
+            out.push(format!("ZD {:?} unknown={} fixed={:?}", tz, tz.is_unknown(), tz.to_fixed_offset().ok().map(|o| o.seconds())));
+            let mut printed = String::new();
+            let res = DateTimePrinter::new().print_time_zone(tz, &mut printed).map_err(|e| e.to_string());
+            out.push(format!("ZP {:?} {:?}", printed, res));
         }
         for &t in &p.instants {
             let ts = Timestamp::from_nanosecond(t).unwrap();
@@ -199,8 +361,8 @@ fn stream(tz: &TimeZone, p: &Probes, with_iters: bool, with_name: bool) -> Resul
         if with_iters {
             for &s in &p.iter_starts {
                 let ts = Timestamp::from_nanosecond(s).unwrap();
-                let f: Vec<String> = tz.following(ts).take(2).map(|t| format!("{}/{}/{}/{}", t.timestamp().as_second(), t.offset().seconds(), t.dst().is_dst(), t.abbreviation())).collect();
-                let b: Vec<String> = tz.preceding(ts).take(2).map(|t| format!("{}/{}/{}/{}", t.timestamp().as_second(), t.offset().seconds(), t.dst().is_dst(), t.abbreviation())).collect();
+                let f: Vec<String> = tz.following(ts).take(3).map(|t| format!("{}/{}/{}/{}", t.timestamp().as_second(), t.offset().seconds(), t.dst().is_dst(), t.abbreviation())).collect();
+                let b: Vec<String> = tz.preceding(ts).take(3).map(|t| format!("{}/{}/{}/{}", t.timestamp().as_second(), t.offset().seconds(), t.dst().is_dst(), t.abbreviation())).collect();
                 out.push(format!("T {} f={:?} p={:?}", s, f, b));
             }
         } else {
@@ -223,6 +385,8 @@ fn stream(tz: &TimeZone, p: &Probes, with_iters: bool, with_name: bool) -> Resul
             let z = Zoned::new(Timestamp::from_nanosecond(t).unwrap(), tz.clone());
             if with_name {
                 out.push(format!("Z {}", z));
+                out.push(format!("ZG {:?}", z));
+                out.push(format!("ZS {:?}", z.strftime("%Z|%Q|%:Q|%z|%:z").to_string()));
             } else {
                 out.push(format!("Z {} {}", z.datetime(), z.offset()));
             }
@@ -263,6 +427,19 @@ fn flags(bytes: &[u8]) -> String {
                 }
             }
         }
+        // RFC 8536 3.3 demands that the footer, evaluated at the last recorded
+        // transition, gives that transition's type; zic 2.36 -b slim breaks it
+        // for America/Ojinaga (2022-10-30: recorded CST, footer still says CDT)
+        if n >= 1 {
+            if let Some(Ok(z)) = raw.footer.as_ref().filter(|f| !f.is_empty()).map(|f| rtz::zone_from_posix(f)) {
+                let t = raw.types[raw.idx[n - 1] as usize];
+                let i = z.info_at(raw.times[n - 1]);
+                let ab: Vec<u8> = raw.chars[t.2 as usize..].iter().copied().take_while(|&c| c != 0).collect();
+                if (i.utoff, i.dst, i.abbrev.as_bytes()) != (t.0, t.1, &ab[..]) {
+                    out.push("footer-disagrees-with-the-last-recorded-transition");
+                }
+            }
+        }
     }
     out.join(",")
 }
@@ -293,6 +470,132 @@ fn first_diff(a: &[String], b: &[String]) -> Option<String> {
     None
 }
 
+/// One way of obtaining the zone `name`: `None` = not applicable to this name.
+struct Route<'a> {
+    be: &'static str,
+    /// a runtime route builds the zone with `TimeZone::tzif(name, bytes)`
+    /// internally: documented `TimeZone ==` (identifier + checksum) applies
+    runtime: bool,
+    get: Box<dyn Fn(&str) -> Option<Result<TimeZone, String>> + Sync + Send + 'a>,
+}
+
+struct Ctx<'a> {
+    r: &'a Report,
+    digests: &'a Mutex<BTreeMap<String, String>>,
+    cfg: &'a str,
+    thorough: bool,
+}
+
+/// Loads `bytes` as `name` with `TimeZone::tzif` (the base route), produces its
+/// answer stream and compares every other route with it. `key`: digest key for
+/// the cross-configuration comparison (None = the same bytes are keyed by
+/// another section). `reject_ok`: the data may legitimately be refused by
+/// `TimeZone::tzif` (synthetic F7 zones without tz-fat); every route must then
+/// refuse it as well.
+fn compare_routes(cx: &Ctx, sec: &str, tag: &str, name: &str, bytes: &[u8], routes: &[Route], key: Option<String>, reject_ok: bool) -> Option<Vec<String>> {
+    let r = cx.r;
+    let case = format!("{} {}:{}", cx.cfg, tag, name);
+    let Ok(model) = rtz::zone_from_tzif(bytes) else {
+        r.count("zones_the_reference_reader_rejects", 1);
+        return None;
+    };
+    let p = probes(&[&model], cx.thorough);
+    let base = match guard(|| TimeZone::tzif(name, bytes)) {
+        Ok(Ok(t)) => t,
+        Ok(Err(e)) if reject_ok => {
+            if let Some(k) = key {
+                cx.digests.lock().unwrap().insert(k, format!("LOAD-FAILS|{}", flags(bytes)));
+            }
+            r.count("zones_rejected_by_tzif(bytes)", 1);
+            for rt in routes {
+                if let Some(Ok(_)) = guard(|| (rt.get)(name)).unwrap_or(None) {
+                    r.viol(sec, &format!("{}/loads-data-that-tzif(bytes)-rejects", rt.be), case.clone(), format!("tzif(bytes): {}", e));
+                } else {
+                    r.add_validated(1);
+                }
+            }
+            return None;
+        }
+        other => {
+            r.viol(sec, "tzif(bytes)/load", case.clone(), format!("{:?}", other.map(|x| x.map(|_| ()).map_err(|e| e.to_string()))));
+            return None;
+        }
+    };
+    let sb = match stream(&base, &p, true, true) {
+        Ok(s) => s,
+        Err(pn) => {
+            r.viol(sec, &format!("tzif(bytes)/{}", panic_sig(&pn)), case.clone(), pn);
+            return None;
+        }
+    };
+    if let Some(k) = key {
+        put(cx.digests, k, &sb[1..], flags(bytes));
+    }
+    r.add_states(1);
+    r.add_transitions(sb.len() as u64);
+    for rt in routes {
+        let got = match guard(|| (rt.get)(name)) {
+            Err(pn) => {
+                r.viol(sec, &format!("{}/{}", rt.be, panic_sig(&pn)), case.clone(), pn);
+                continue;
+            }
+            Ok(None) => continue,
+            Ok(Some(x)) => x,
+        };
+        r.count(&format!("zones_through_{}", rt.be), 1);
+        match got {
+            Err(e) => r.viol(sec, &format!("{}/lookup-fails", rt.be), case.clone(), e),
+            Ok(tz) => match stream(&tz, &p, true, true) {
+                Err(pn) => r.viol(sec, &format!("{}/{}", rt.be, panic_sig(&pn)), case.clone(), pn),
+                Ok(s) => {
+                    r.add_validated(s.len() as u64);
+                    r.add_transitions(s.len() as u64);
+                    let diff = if name == "UTC" && rt.runtime {
+                        // the exact query "UTC" is answered with the built-in UTC
+                        // zone by the directory and concatenated back-ends: its
+                        // Debug form and `to_fixed_offset` are those of another
+                        // kind of zone (not claimed); everything else is compared
+                        r.count("zone_debug_form_not_claimed_for_builtin_utc", 1);
+                        let f = |v: &[String]| v.iter().filter(|l| !l.starts_with("ZD ")).cloned().collect::<Vec<_>>();
+                        first_diff(&f(&sb), &f(&s))
+                    } else {
+                        first_diff(&sb, &s)
+                    };
+                    if let Some(d) = diff {
+                        r.viol(sec, &format!("{}/stream-differs-from-tzif(bytes)", rt.be), case.clone(), d);
+                    }
+                    // TimeZone ==: "two IANA time zones are equal when their
+                    // identifiers are equal and checksums of their rules are
+                    // equal". The built-in UTC that the directory and the
+                    // concatenated back-ends return for the exact query "UTC"
+                    // is another kind of zone (not claimed, see DESIGN 5.3).
+                    if rt.runtime {
+                        if name == "UTC" {
+                            r.count("timezone_eq_not_claimed_for_builtin_utc", 1);
+                        } else {
+                            r.add_validated(1);
+                            r.count("timezone_eq_checked_between_runtime_routes", 1);
+                            if tz != base || base != tz {
+                                r.viol(sec, &format!("{}/TimeZone-ne-tzif(bytes)-for-the-same-identifier-and-data", rt.be), case.clone(), format!("{:?} != {:?}", tz, base));
+                            }
+                        }
+                    } else {
+                        // static zones: equality with a runtime zone is not
+                        // claimed by the property (counted); a static zone
+                        // equals itself and its clone
+                        r.outcome(if tz == base { "static_eq_runtime_zone" } else { "static_ne_runtime_zone" }, 1);
+                        let c = tz.clone();
+                        if tz != c || c != tz {
+                            r.viol(sec, &format!("{}/TimeZone-ne-its-own-clone", rt.be), case.clone(), format!("{:?}", tz));
+                        }
+                    }
+                }
+            },
+        }
+    }
+    Some(sb)
+}
+
 fn main() {
     let r = Report::from_args("C18");
     let cfg = if cfg!(feature = "fat") { "tz-fat=on" } else { "tz-fat=off" };
@@ -300,70 +603,39 @@ fn main() {
     let digest_out = args.iter().position(|a| a == "--digests").map(|i| args[i + 1].clone());
     let digests: Mutex<BTreeMap<String, String>> = Mutex::new(BTreeMap::new());
     let thorough = r.thorough();
-    std::fs::create_dir_all("/verif/.build/zones").unwrap();
+    let scratch = scratch_dir();
+    std::fs::create_dir_all(&scratch).unwrap();
+    let pid = std::process::id();
+    let cx = Ctx { r: &r, digests: &digests, cfg, thorough };
 
     // ---------------------------------------------------------------- sys
     let mut sysz: Vec<(String, Vec<u8>)> = vec![];
     walk(Path::new(SYS), Path::new(SYS), &["right", "posix"], &mut sysz);
-    let concat_path = PathBuf::from(format!("/verif/.build/zones/c18-concat-{}.dat", std::process::id()));
+    let concat_path = scratch.join(format!("c18-concat-{}.dat", pid));
     write_concatenated(&concat_path, &sysz);
+    // `jiff::tz::db()` is the zoneinfo directory back-end over SYS unless the
+    // environment says otherwise
+    let global_is_sys = std::env::var_os("TZDIR").is_none() && format!("{:?}", jiff::tz::db()).contains(SYS);
 
     r.section("sys-backends", || {
         let db_dir = TimeZoneDatabase::from_dir(SYS).expect("from_dir");
         let db_cat = TimeZoneDatabase::from_concatenated_path(&concat_path).expect("from_concatenated_path");
         let st: BTreeMap<&'static str, TimeZone> = static_sys().into_iter().collect();
         r.count("static_include_zones", st.len() as u64);
+        let mut routes: Vec<Route> = vec![
+            Route { be: "zoneinfo-dir", runtime: true, get: Box::new(|n| Some(db_dir.get(n).map_err(|e| e.to_string()))) },
+            Route { be: "concatenated", runtime: true, get: Box::new(|n| if n.len() <= 39 { Some(db_cat.get(n).map_err(|e| e.to_string())) } else { None }) },
+            Route { be: "static-include", runtime: false, get: Box::new(|n| st.get(n).map(|t| Ok(t.clone()))) },
+        ];
+        if global_is_sys {
+            routes.push(Route { be: "global-db", runtime: true, get: Box::new(|n| Some(TimeZone::get(n).map_err(|e| e.to_string()))) });
+        } else {
+            r.count("global_db_is_not_the_installed_directory", 1);
+        }
         sysz.par_iter().for_each(|(name, bytes)| {
-            let case = format!("{} sys:{}", cfg, name);
-            let Ok(model) = rtz::zone_from_tzif(bytes) else { return };
-            let p = probes(&[&model], thorough);
-            let base = match guard(|| TimeZone::tzif(name, bytes)) {
-                Ok(Ok(t)) => t,
-                other => {
-                    r.viol("sys-backends", "tzif(bytes)/load", case.clone(), format!("{:?}", other.map(|x| x.map(|_| ()).map_err(|e| e.to_string()))));
-                    return;
-                }
-            };
-            let sb = match stream(&base, &p, true, true) {
-                Ok(s) => s,
-                Err(pn) => {
-                    r.viol("sys-backends", &format!("tzif(bytes)/{}", panic_sig(&pn)), case.clone(), pn);
-                    return;
-                }
-            };
-            put(&digests, format!("sys:{}", name), &sb[1..], flags(bytes));
-            r.add_states(1);
-            r.add_transitions(sb.len() as u64);
-            let mut others: Vec<(&str, Result<TimeZone, String>)> = vec![
-                ("zoneinfo-dir", db_dir.get(name).map_err(|e| e.to_string())),
-            ];
-            if name.len() <= 39 {
-                others.push(("concatenated", db_cat.get(name).map_err(|e| e.to_string())));
-            }
-            if let Some(t) = st.get(name.as_str()) {
-                others.push(("static-include", Ok(t.clone())));
-            }
-            for (be, tz) in others {
-                match tz {
-                    Err(e) => r.viol("sys-backends", &format!("{}/lookup-fails", be), case.clone(), e),
-                    Ok(tz) => match stream(&tz, &p, true, true) {
-                        Err(pn) => r.viol("sys-backends", &format!("{}/{}", be, panic_sig(&pn)), case.clone(), pn),
-                        Ok(s) => {
-                            r.add_validated(s.len() as u64);
-                            r.add_transitions(s.len() as u64);
-                            if let Some(d) = first_diff(&sb, &s) {
-                                r.viol("sys-backends", &format!("{}/stream-differs-from-tzif(bytes)", be), case.clone(), d);
-                            }
-                            if tz != base && be != "static-include" {
-                                // TimeZone equality is by name + data for tzif kinds
-                                r.count("timezone_ne_between_backends", 1);
-                            }
-                        }
-                    },
-                }
-            }
-            if name == "America/New_York" {
-                r.sample(json!({"config": cfg, "zone": name, "stream_lines": sb.len(), "first": sb[..3.min(sb.len())], "backends": ["tzif(bytes)", "zoneinfo-dir", "concatenated", "static-include"]}));
+            let sb = compare_routes(&cx, "sys-backends", "sys", name, bytes, &routes, Some(format!("sys:{}", name)), false);
+            if let (Some(sb), true) = (sb, name == "America/New_York") {
+                r.sample(json!({"config": cfg, "zone": name, "stream_lines": sb.len(), "first": sb[..5.min(sb.len())], "backends": ["tzif(bytes)", "zoneinfo-dir", "concatenated", "static-include", "global-db"]}));
             }
         });
     });
@@ -374,72 +646,36 @@ fn main() {
         let st: BTreeMap<&'static str, TimeZone> = static_bundled().into_iter().collect();
         let names: Vec<&'static str> = jiff_tzdb::available().collect();
         r.count("bundled_names", names.len() as u64);
+        let routes: Vec<Route> = vec![
+            Route { be: "bundled-db", runtime: true, get: Box::new(|n| Some(db.get(n).map_err(|e| e.to_string()))) },
+            Route { be: "static-get", runtime: false, get: Box::new(|n| st.get(n).map(|t| Ok(t.clone()))) },
+        ];
         names.par_iter().for_each(|name| {
-            let case = format!("{} bundled:{}", cfg, name);
-            let Some((canon, bytes)) = jiff_tzdb::get(name) else { return };
-            let Ok(model) = rtz::zone_from_tzif(bytes) else { return };
-            let p = probes(&[&model], thorough);
-            let Ok(Ok(base)) = guard(|| TimeZone::tzif(canon, bytes)) else {
-                r.viol("bundled-backends", "tzif(bytes)/load", case.clone(), "bundled bytes rejected");
+            let Some((canon, bytes)) = jiff_tzdb::get(name) else {
+                r.viol("bundled-backends", "jiff_tzdb::get/listed-name-not-found", format!("{} bundled:{}", cfg, name), "None");
                 return;
             };
-            let Ok(sb) = stream(&base, &p, true, true) else { return };
-            put(&digests, format!("bundled:{}", name), &sb[1..], flags(bytes));
-            r.add_states(1);
-            let mut others: Vec<(&str, Result<TimeZone, String>)> = vec![("bundled-db", db.get(name).map_err(|e| e.to_string()))];
-            if let Some(t) = st.get(name) {
-                others.push(("static-get", Ok(t.clone())));
+            if canon != *name {
+                r.viol("bundled-backends", "jiff_tzdb::get/canonical-name-differs", format!("{} bundled:{}", cfg, name), canon);
+                return;
             }
-            for (be, tz) in others {
-                match tz {
-                    Err(e) => r.viol("bundled-backends", &format!("{}/lookup-fails", be), case.clone(), e),
-                    Ok(tz) => match stream(&tz, &p, true, true) {
-                        Err(pn) => r.viol("bundled-backends", &format!("{}/{}", be, panic_sig(&pn)), case.clone(), pn),
-                        Ok(s) => {
-                            r.add_validated(s.len() as u64);
-                            r.add_transitions(s.len() as u64);
-                            if let Some(d) = first_diff(&sb, &s) {
-                                r.viol("bundled-backends", &format!("{}/stream-differs-from-tzif(bytes)", be), case.clone(), d);
-                            }
-                        }
-                    },
-                }
-            }
+            compare_routes(&cx, "bundled-backends", "bundled", name, bytes, &routes, Some(format!("bundled:{}", name)), false);
         });
     });
 
     // ---------------------------------------------------------------- synthetic, static macro and slim vs fat
+    let synth_slim = static_synth_slim();
+    let synth_fat = static_synth_fat();
     r.section("synth", || {
-        let slim = static_synth_slim();
-        let fat = static_synth_fat();
-        for (set, tag) in [(&slim, "synth-slim"), (&fat, "synth-fat")] {
+        for (set, tag) in [(&synth_slim, "synth-slim"), (&synth_fat, "synth-fat")] {
             for (name, bytes, stz) in set.iter() {
-                let case = format!("{} {}:{}", cfg, tag, name);
-                let Ok(model) = rtz::zone_from_tzif(bytes) else { continue };
-                let p = probes(&[&model], thorough);
-                let Ok(Ok(base)) = guard(|| TimeZone::tzif(name, bytes)) else {
-                    digests.lock().unwrap().insert(format!("{}:{}", tag, name), format!("LOAD-FAILS|{}", flags(bytes)));
-                    continue;
-                };
-                let Ok(sb) = stream(&base, &p, true, true) else { continue };
-                put(&digests, format!("{}:{}", tag, name), &sb[1..], flags(bytes));
-                r.add_states(1);
-                if let Some(stz) = stz {
-                    match stream(stz, &p, true, true) {
-                        Err(pn) => r.viol("synth", &format!("static-include/{}", panic_sig(&pn)), case.clone(), pn),
-                        Ok(s) => {
-                            r.add_validated(s.len() as u64);
-                            if let Some(d) = first_diff(&sb, &s) {
-                                r.viol("synth", "static-include/stream-differs-from-tzif(bytes)", case.clone(), d);
-                            }
-                        }
-                    }
-                }
+                let routes: Vec<Route> = vec![Route { be: "static-include", runtime: false, get: Box::new(|_| stz.clone().map(Ok)) }];
+                compare_routes(&cx, "synth", tag, name, bytes, &routes, Some(format!("{}:{}", tag, name)), true);
             }
         }
         // slim vs fat of the same rules
-        for (name, sbytes, _) in slim.iter() {
-            let Some((_, fbytes, _)) = fat.iter().find(|x| x.0 == *name) else { continue };
+        for (name, sbytes, _) in synth_slim.iter() {
+            let Some((_, fbytes, _)) = synth_fat.iter().find(|x| x.0 == *name) else { continue };
             slim_vs_fat(&r, "synth", cfg, name, sbytes, fbytes, thorough);
         }
     });
@@ -448,9 +684,7 @@ fn main() {
         let (d1, slim) = zic("/usr/share/zoneinfo/tzdata.zi", "slim", "tzdata");
         let (d2, fat) = zic("/usr/share/zoneinfo/tzdata.zi", "fat", "tzdata");
         let fatm: BTreeMap<&str, &Vec<u8>> = fat.iter().map(|(n, b)| (n.as_str(), b)).collect();
-        let rep = ["America/New_York", "Europe/London", "Europe/Dublin", "Australia/Lord_Howe", "Pacific/Apia", "Africa/Casablanca", "America/Sao_Paulo", "Asia/Tehran", "Africa/Monrovia", "Antarctica/Troll", "America/St_Johns", "Asia/Kathmandu"];
         slim.par_iter().for_each(|(name, sbytes)| {
-            let _ = &rep;
             if let Some(fbytes) = fatm.get(name.as_str()) {
                 slim_vs_fat(&r, "tzdata-slim-vs-fat", cfg, name, sbytes, fbytes, thorough);
             }
@@ -459,88 +693,181 @@ fn main() {
         let _ = std::fs::remove_dir_all(d2);
     });
 
-    // ---------------------------------------------------------------- names
-    r.section("names", || {
-        let db_dir = TimeZoneDatabase::from_dir(SYS).unwrap();
-        let db_cat = TimeZoneDatabase::from_concatenated_path(&concat_path).unwrap();
-        let db_b = TimeZoneDatabase::bundled();
-        let sys_names: Vec<String> = sysz.iter().map(|x| x.0.clone()).collect();
-        let b_names: Vec<String> = jiff_tzdb::available().map(|s| s.to_string()).collect();
-        let cat_names: Vec<String> = sys_names.iter().filter(|n| n.len() <= 39).cloned().collect();
-        for (be, db, names) in [("zoneinfo-dir", &db_dir, &sys_names), ("concatenated", &db_cat, &cat_names), ("bundled-db", &db_b, &b_names)] {
-            // the database must list exactly these names
-            let mut listed: Vec<String> = db.available().map(|n| n.as_str().to_string()).collect();
-            listed.sort();
-            let mut want = names.clone();
-            want.sort();
-            if be != "zoneinfo-dir" && listed != want {
-                r.viol("names", &format!("{}/available-differs", be), format!("{} {}", cfg, be), format!("{} listed vs {} expected", listed.len(), want.len()));
-            } else if be == "zoneinfo-dir" {
-                for w in &want {
-                    if listed.binary_search(w).is_err() {
-                        r.viol("names", "zoneinfo-dir/available-misses-name", format!("{} {}", cfg, w), "not listed");
-                    }
+    // ---------------------------------------------------------------- every route over slim and fat compilations
+    // Two corpora, each materialised as a zoneinfo tree and as a concatenated
+    // file in the adversarial layout:
+    //   zic-slim = `zic -b slim` of the installed tzdata.zi (bytes embedded at
+    //              build time, one `include!` each) + the synthetic zones, slim;
+    //   zic-fat  = the installed files (byte-identical to `zic -b fat`) + the
+    //              synthetic zones, fat.
+    let zic_slim = static_zic_slim();
+    r.section("zic-backends", || {
+        let slim_set: Vec<(String, Vec<u8>)> = zic_slim.iter().chain(synth_slim.iter()).map(|(n, b, _)| (n.to_string(), b.to_vec())).collect();
+        let fat_set: Vec<(String, Vec<u8>)> = sysz.iter().cloned().chain(synth_fat.iter().map(|(n, b, _)| (n.to_string(), b.to_vec()))).collect();
+        let st_slim: BTreeMap<&'static str, TimeZone> = zic_slim.iter().filter_map(|(n, _, t)| t.clone().map(|t| (*n, t))).collect();
+        r.count("static_include_zones_zic_slim", st_slim.len() as u64);
+        for (tag, set, st) in [("zic-slim", &slim_set, Some(&st_slim)), ("zic-fat", &fat_set, None)] {
+            let dir = scratch.join(format!("c18-{}-tree-{}", tag, pid));
+            let cat = scratch.join(format!("c18-{}-{}.dat", tag, pid));
+            materialize(&dir, set);
+            write_concatenated_adversarial(&cat, set);
+            let db_dir = TimeZoneDatabase::from_dir(&dir).expect("from_dir");
+            let db_cat = TimeZoneDatabase::from_concatenated_path(&cat).expect("from_concatenated_path");
+            let routes: Vec<Route> = vec![
+                Route { be: "zoneinfo-dir", runtime: true, get: Box::new(|n| Some(db_dir.get(n).map_err(|e| e.to_string()))) },
+                Route { be: "concatenated", runtime: true, get: Box::new(|n| if n.len() <= 39 { Some(db_cat.get(n).map_err(|e| e.to_string())) } else { None }) },
+                Route { be: "static-include", runtime: false, get: Box::new(|n| st.and_then(|m| m.get(n)).map(|t| Ok(t.clone()))) },
+            ];
+            set.par_iter().for_each(|(name, bytes)| {
+                // the synthetic zones and the installed files have their digests from the sections above
+                let key = if tag == "zic-slim" && !name.starts_with("Synth/") { Some(format!("zic-slim:{}", name)) } else { None };
+                compare_routes(&cx, "zic-backends", tag, name, bytes, &routes, key, true);
+                r.count(&format!("zones_in_{}", tag), 1);
+            });
+            // the listings of the two databases are exactly the corpus
+            for (be, db) in [("zoneinfo-dir", &db_dir), ("concatenated", &db_cat)] {
+                let mut listed: Vec<String> = db.available().map(|n| n.as_str().to_string()).collect();
+                listed.sort();
+                let mut want: Vec<String> = set.iter().map(|x| x.0.clone()).filter(|n| be == "zoneinfo-dir" || n.len() <= 39).collect();
+                want.sort();
+                r.add_validated(1);
+                if listed != want {
+                    let l: BTreeSet<&String> = listed.iter().collect();
+                    let w: BTreeSet<&String> = want.iter().collect();
+                    r.viol("zic-backends", &format!("{}/available-differs", be), format!("{} {} {}", cfg, tag, be), format!("{} listed vs {} expected; missing {:?}; unexpected {:?}", listed.len(), want.len(), w.difference(&l).take(3).collect::<Vec<_>>(), l.difference(&w).take(3).collect::<Vec<_>>()));
                 }
             }
-            names.par_iter().for_each(|name| {
-                let canon = match db.get(name) {
-                    Ok(t) => t,
-                    Err(e) => {
-                        r.viol("names", &format!("{}/canonical-lookup-fails", be), format!("{} {}", cfg, name), e.to_string());
-                        return;
-                    }
-                };
-                if canon.iana_name() != Some(name.as_str()) {
-                    r.viol("names", &format!("{}/iana_name-not-canonical", be), format!("{} {}", cfg, name), format!("{:?}", canon.iana_name()));
-                }
-                let mut variants = vec![name.to_ascii_lowercase(), name.to_ascii_uppercase(), alternating(name), flip_first(name)];
-                if rep_small(name) {
-                    variants = all_case_variants(name);
-                }
-                for v in variants {
-                    r.add_transitions(1);
-                    match guard(|| db.get(&v)) {
-                        Err(pn) => r.viol("names", &format!("{}/{}", be, panic_sig(&pn)), format!("{} {}", cfg, v), pn),
-                        Ok(Err(e)) => r.viol("names", &format!("{}/case-variant-not-found", be), format!("{} {}", cfg, v), e.to_string()),
-                        Ok(Ok(t)) => {
-                            r.add_validated(1);
-                            if t.iana_name() != Some(name.as_str()) {
-                                r.viol("names", &format!("{}/case-variant-not-canonical-spelling", be), format!("{} {}", cfg, v), format!("{:?} want {}", t.iana_name(), name));
-                            } else {
-                                // same behaviour (TimeZone::eq is not claimed by the property)
-                                for s in [-2_000_000_000i64, 0, 1_700_000_000, 4_000_000_000] {
-                                    let ts = Timestamp::from_second(s).unwrap();
-                                    let (a, b) = (t.to_offset_info(ts), canon.to_offset_info(ts));
-                                    if (a.offset(), a.dst(), a.abbreviation().to_string()) != (b.offset(), b.dst(), b.abbreviation().to_string()) {
-                                        r.viol("names", &format!("{}/case-variant-different-zone", be), format!("{} {}", cfg, v), format!("at {}: {:?} vs {:?}", s, a, b));
-                                    }
-                                }
-                            }
-                        }
-                    }
-                }
-                for bad in [format!("{}x", name), format!("{}/", name), format!(" {}", name)] {
-                    if names.iter().any(|n| n.eq_ignore_ascii_case(&bad)) {
-                        continue;
-                    }
-                    if let Ok(Ok(t)) = guard(|| db.get(&bad)) {
-                        r.viol("names", &format!("{}/unknown-name-found", be), format!("{} {:?}", cfg, bad), format!("{:?}", t.iana_name()));
-                    }
-                }
-            });
-            for bad in ["", "Does/Not_Exist", "America", "America/", "/", ".", "..", "../zoneinfo/UTC", "America/New_York\0"] {
-                if let Ok(Ok(t)) = guard(|| db.get(bad)) {
-                    r.viol("names", &format!("{}/unknown-name-found", be), format!("{} {:?}", cfg, bad), format!("{:?}", t.iana_name()));
+            let _ = std::fs::remove_dir_all(&dir);
+            let _ = std::fs::remove_file(&cat);
+        }
+    });
+    if r.only_section.is_none() {
+        r.require(r.get_count("zones_in_zic-slim") >= 600 && r.get_count("zones_in_zic-fat") >= 600, "both compilations went through the directory and concatenated routes");
+        r.require(r.get_count("static_include_zones_zic_slim") >= 550, "slim compilations compiled in by include!");
+        r.require(r.get_count("timezone_eq_checked_between_runtime_routes") >= 4000, "TimeZone == compared between runtime routes");
+        r.require(r.get_count("zones_through_concatenated") >= 1800 && r.get_count("zones_through_zoneinfo-dir") >= 1800, "directory and concatenated routes saw every corpus");
+    }
+
+    // ---------------------------------------------------------------- names
+    r.section("names", || {
+        // expected contents from the harness's own walk (posix/ and right/ included:
+        // they are names of the directory database like any other)
+        let mut sys_all: Vec<(String, Vec<u8>)> = vec![];
+        walk(Path::new(SYS), Path::new(SYS), &[], &mut sys_all);
+        // Identifiers reached through a symbolic link to a *directory* (Debian's
+        // posix/Africa -> ../Africa) are not part of the directory database: its
+        // walk treats symbolic links as files (said so in the walk itself; what
+        // the database lists is what it looks up). Links to files are names.
+        let n_all = sys_all.len();
+        sys_all.retain(|(n, _)| {
+            let mut p = PathBuf::from(SYS);
+            let comps: Vec<&str> = n.split('/').collect();
+            comps[..comps.len() - 1].iter().all(|c| {
+                p.push(c);
+                std::fs::symlink_metadata(&p).map(|m| m.is_dir()).unwrap_or(false)
+            })
+        });
+        r.count("installed_names_behind_directory_symlinks_(not_in_the_database)", (n_all - sys_all.len()) as u64);
+        let cat_all: Vec<(String, Vec<u8>)> = sysz.iter().filter(|z| z.0.len() <= 39).cloned().collect();
+        let b_all: Vec<(String, Vec<u8>)> = jiff_tzdb::available().filter_map(|n| jiff_tzdb::get(n).map(|(_, b)| (n.to_string(), b.to_vec()))).collect();
+        let mk_dir = || TimeZoneDatabase::from_dir(SYS).unwrap();
+        let mk_cat = || TimeZoneDatabase::from_concatenated_path(&concat_path).unwrap();
+        let mk_b = || {
+            let d = TimeZoneDatabase::bundled();
+            d.reset();
+            d
+        };
+        names_battery(&cx, "names", "zoneinfo-dir", &mk_dir, &sys_all, &[]);
+        names_battery(&cx, "names", "concatenated", &mk_cat, &cat_all, &[]);
+        names_battery(&cx, "names", "bundled-db", &mk_b, &b_all, &[]);
+    });
+
+    // ---------------------------------------------------------------- names that are neighbours in every sort order
+    // A synthetic database whose names differ only in case-sensitive ways, by
+    // separators and by prefix: every 1- and 2-character string over an alphabet
+    // that straddles the gaps of ASCII between digits, upper case, `_` and lower
+    // case, under `Nb/`, plus top-level names around `/` itself. Each name has its
+    // own offset, so a lookup that lands on a neighbour is seen in the behaviour.
+    // Queried: the complete set of strings of length <= 3 over the alphabet and
+    // its case flips, under three spellings of the prefix.
+    r.section("name-neighbours", || {
+        let alpha: Vec<char> = "+-._09BMZcny".chars().collect();
+        let mut names: Vec<String> = vec![];
+        for &a in &alpha {
+            if a != '.' {
+                names.push(format!("Nb/{}", a));
+            }
+            for &b in &alpha {
+                if a != '.' {
+                    names.push(format!("Nb/{}{}", a, b));
                 }
             }
         }
+        for t in ["Nb+B", "Nb-B", "Nb.B", "Nb0", "Nb_", "NbB", "Nbc", "Na", "Nc", "Nb+", "Nb-"] {
+            names.push(t.to_string());
+        }
+        names.sort();
+        let zones: Vec<(String, Vec<u8>)> = names
+            .iter()
+            .enumerate()
+            .map(|(i, n)| {
+                let abbr = format!("Q{}{}", (b'a' + (i / 26) as u8) as char, (b'a' + (i % 26) as u8) as char);
+                (n.clone(), mk_tzif((i as i32 + 1) * 61, &abbr))
+            })
+            .collect();
+        r.count("neighbour_names", zones.len() as u64);
+        let mut qalpha: Vec<char> = alpha.clone();
+        qalpha.extend("bmzCNY/".chars());
+        let mut queries: Vec<String> = vec![];
+        for pre in ["Nb/", "nb/", "NB/", "Nb", "nB", ""] {
+            for &a in &qalpha {
+                queries.push(format!("{}{}", pre, a));
+                for &b in &qalpha {
+                    queries.push(format!("{}{}{}", pre, a, b));
+                    if pre == "Nb/" {
+                        for &c in &qalpha {
+                            queries.push(format!("{}{}{}{}", pre, a, b, c));
+                        }
+                    }
+                }
+            }
+        }
+        queries.sort();
+        queries.dedup();
+        r.count("neighbour_queries", queries.len() as u64);
+        let dir = scratch.join(format!("c18-neighbours-tree-{}", pid));
+        let cat = scratch.join(format!("c18-neighbours-{}.dat", pid));
+        let cat2 = scratch.join(format!("c18-neighbours-adv-{}.dat", pid));
+        materialize(&dir, &zones);
+        write_concatenated(&cat, &zones);
+        write_concatenated_adversarial(&cat2, &zones);
+        let mk_dir = || TimeZoneDatabase::from_dir(&dir).unwrap();
+        let mk_cat = || TimeZoneDatabase::from_concatenated_path(&cat).unwrap();
+        let mk_cat2 = || TimeZoneDatabase::from_concatenated_path(&cat2).unwrap();
+        names_battery(&cx, "name-neighbours", "zoneinfo-dir", &mk_dir, &zones, &queries);
+        names_battery(&cx, "name-neighbours", "concatenated", &mk_cat, &zones, &queries);
+        names_battery(&cx, "name-neighbours", "concatenated", &mk_cat2, &zones, &queries);
+        let _ = std::fs::remove_dir_all(&dir);
+        let _ = std::fs::remove_file(&cat);
+        let _ = std::fs::remove_file(&cat2);
     });
+    if r.only_section.is_none() {
+        r.require(r.get_count("name_queries_expected_found") > 20_000 && r.get_count("name_queries_expected_unknown") > 20_000, "name lookups with both expected outcomes");
+        r.require(r.get_count("name_queries_on_a_cold_database") > 10_000, "case variants looked up on cold databases");
+        r.require(r.get_count("neighbour_names") > 150, "synthetic neighbour names");
+    }
 
     // ---------------------------------------------------------------- POSIX print -> parse
     r.section("posix-roundtrip", || {
         let mut strs: Vec<String> = posix_strings(thorough);
-        // every footer of the installed database
-        for (_, b) in &sysz {
+        let shapes = posix_shapes(thorough);
+        r.count("posix_shape_strings", shapes.len() as u64);
+        strs.extend(shapes);
+        // every footer of the installed database, of its slim compilation, of the
+        // bundled database and of the synthetic zones
+        let bundled: Vec<&'static [u8]> = jiff_tzdb::available().filter_map(|n| jiff_tzdb::get(n).map(|x| x.1)).collect();
+        let all = sysz.iter().map(|x| &x.1[..]).chain(zic_slim.iter().map(|x| x.1)).chain(synth_slim.iter().map(|x| x.1)).chain(synth_fat.iter().map(|x| x.1)).chain(bundled.into_iter());
+        for b in all {
             if let Ok(raw) = rtz::parse_tzif(b) {
                 if let Some(f) = raw.footer {
                     strs.push(String::from_utf8_lossy(&f).into_owned());
@@ -554,8 +881,22 @@ fn main() {
         let parser = DateTimeParser::new();
         strs.par_iter().for_each(|s| {
             let case = format!("{} posix:{}", cfg, s);
-            let Ok(model) = rtz::zone_from_posix(s.as_bytes()) else { return };
-            let Ok(Ok(tz)) = guard(|| TimeZone::posix(s)) else { return };
+            let Ok(model) = rtz::parse_posix(s.as_bytes()) else {
+                r.count("posix_strings_the_reference_reader_rejects", 1);
+                return;
+            };
+            let tz = match guard(|| TimeZone::posix(s)) {
+                Ok(Ok(t)) => t,
+                Ok(Err(_)) => {
+                    // acceptance is C17's business; nothing to print
+                    r.count("posix_strings_jiff_rejects", 1);
+                    return;
+                }
+                Err(pn) => {
+                    r.viol("posix-roundtrip", &format!("TimeZone::posix/{}", panic_sig(&pn)), case.clone(), pn);
+                    return;
+                }
+            };
             let mut printed = String::new();
             match guard(|| printer.print_time_zone(&tz, &mut printed)) {
                 Ok(Ok(())) => {}
@@ -571,17 +912,63 @@ fn main() {
                     return;
                 }
             };
-            let p = probes(&[&model], false);
-            let (Ok(a), Ok(b)) = (stream(&tz, &p, true, false), stream(&tz2, &p, true, false)) else { return };
+            let p = posix_probes(&model);
+            let (Ok(a), Ok(b)) = (stream(&tz, &p, true, false), stream(&tz2, &p, true, false)) else {
+                r.count("posix_streams_that_panicked_(C03/C04/C14)", 1);
+                return;
+            };
             r.add_states(1);
             r.add_validated(a.len() as u64);
             r.add_transitions(a.len() as u64);
             if let Some(d) = first_diff(&a, &b) {
-                r.viol("posix-roundtrip", "posix-print-parse/behaviour-differs", case, format!("printed {:?}: {}", printed, d));
+                r.viol("posix-roundtrip", "posix-print-parse/behaviour-differs", case.clone(), format!("printed {:?}: {}", printed, d));
             }
             put(&digests, format!("posix:{}", s), &a, "");
+
+            // the printed form read by the reference POSIX reader is the same rule
+            // (independent of jiff's own parser sharing a mistake with its printer)
+            r.add_validated(1);
+            match (rtz::parse_posix(s.as_bytes()), rtz::parse_posix(printed.as_bytes())) {
+                (Ok(x), Ok(y)) if x == y => {}
+                (x, y) => r.viol("posix-roundtrip", "print_time_zone/printed-form-is-another-rule-for-the-reference-reader", case.clone(), format!("printed {:?}: {:?} vs {:?}", printed, x, y)),
+            }
+            // the other entry point for the printed form, and printing is a fixed point
+            match guard(|| TimeZone::posix(&printed)) {
+                Ok(Ok(tz3)) => {
+                    let mut again = String::new();
+                    let _ = guard(|| printer.print_time_zone(&tz3, &mut again));
+                    r.add_validated(2);
+                    if again != printed {
+                        r.viol("posix-roundtrip", "print_time_zone/printed-form-is-not-a-fixed-point", case.clone(), format!("{:?} -> {:?}", printed, again));
+                    }
+                    // equal zones have the same rules (documented); otherwise compare the behaviour
+                    if tz3 == tz2 {
+                        r.count("posix_printed_form_gives_equal_zones_through_both_entry_points", 1);
+                    } else {
+                        match stream(&tz3, &p, true, false) {
+                            Ok(c) => {
+                                if let Some(d) = first_diff(&a, &c) {
+                                    r.viol("posix-roundtrip", "posix-print-TimeZone::posix/behaviour-differs", case.clone(), format!("printed {:?}: {}", printed, d));
+                                }
+                            }
+                            Err(pn) => r.viol("posix-roundtrip", &format!("TimeZone::posix(printed)/{}", panic_sig(&pn)), case.clone(), pn),
+                        }
+                    }
+                }
+                other => r.viol("posix-roundtrip", "TimeZone::posix/rejects-printed-form", case.clone(), format!("printed {:?}: {:?}", printed, other.map(|x| x.map(|_| ()).map_err(|e| e.to_string())))),
+            }
+            // Debug shows the same printed form
+            r.add_validated(1);
+            let dbg = format!("{:?}", tz);
+            if dbg != format!("TimeZone(Posix({}))", printed) {
+                r.viol("posix-roundtrip", "TimeZone-Debug/differs-from-print_time_zone", case.clone(), format!("{:?} vs printed {:?}", dbg, printed));
+            }
         });
     });
+    if r.only_section.is_none() {
+        r.require(r.get_count("posix_shape_strings") > 1000, "POSIX shape alphabet");
+        r.require(r.get_count("posix_strings_jiff_rejects") + r.get_count("posix_strings_the_reference_reader_rejects") < r.get_count("posix_strings") / 20, "nearly all POSIX strings are accepted by both readers");
+    }
 
     let _ = std::fs::remove_file(&concat_path);
     if let Some(p) = digest_out {
@@ -609,7 +996,29 @@ fn slim_vs_fat(r: &Report, sec: &str, cfg: &str, name: &str, sbytes: &[u8], fbyt
         return;
     }
     let p = probes(&[&ms, &mf], thorough);
-    let (Ok(Ok(ts)), Ok(Ok(tf))) = (guard(|| TimeZone::tzif(name, sbytes)), guard(|| TimeZone::tzif(name, fbytes))) else { return };
+    let fl = |a: &[u8], b: &[u8]| -> String {
+        let mut fl: Vec<String> = vec![flags(a), flags(b)].into_iter().flat_map(|f| f.split(',').map(|x| x.to_string()).collect::<Vec<_>>()).filter(|x| !x.is_empty()).collect();
+        fl.sort();
+        fl.dedup();
+        fl.join(",")
+    };
+    let (ts, tf) = match (guard(|| TimeZone::tzif(name, sbytes)), guard(|| TimeZone::tzif(name, fbytes))) {
+        (Ok(Ok(a)), Ok(Ok(b))) => (a, b),
+        (Ok(Err(_)), Ok(Err(_))) => {
+            r.count("slim_vs_fat_both_compilations_rejected", 1);
+            return;
+        }
+        (Ok(a), Ok(b)) => {
+            // the two compilations of the same rules do not even agree on being a zone
+            let d = format!("slim: {:?}; fat: {:?}", a.as_ref().map(|_| "loads").map_err(|e| e.to_string()), b.as_ref().map(|_| "loads").map_err(|e| e.to_string()));
+            r.viol(sec, &format!("slim-vs-fat/only-one-compilation-loads:{}", fl(sbytes, fbytes)), case, d);
+            return;
+        }
+        (a, b) => {
+            r.viol(sec, "slim-vs-fat/panic", case, format!("{:?} {:?}", a.err(), b.err()));
+            return;
+        }
+    };
     let (a, b) = match (stream(&ts, &p, false, false), stream(&tf, &p, false, false)) {
         (Ok(a), Ok(b)) => (a, b),
         (x, y) => {
@@ -623,12 +1032,217 @@ fn slim_vs_fat(r: &Report, sec: &str, cfg: &str, name: &str, sbytes: &[u8], fbyt
     r.add_transitions(a.len() as u64);
     if let Some(d) = first_diff(&a, &b) {
         // F7: per-year clamping makes the rule-driven (slim) and the recorded (fat) readings differ
-        let mut fl: Vec<String> = vec![flags(sbytes), flags(fbytes)].into_iter().flat_map(|f| f.split(',').map(|x| x.to_string()).collect::<Vec<_>>()).filter(|x| !x.is_empty()).collect();
-        fl.sort();
-        fl.dedup();
-        let sig = if fl.is_empty() { "slim-vs-fat/stream-differs".to_string() } else { format!("slim-vs-fat/stream-differs:{}", fl.join(",")) };
+        let fl = fl(sbytes, fbytes);
+        let sig = if fl.is_empty() { "slim-vs-fat/stream-differs".to_string() } else { format!("slim-vs-fat/stream-differs:{}", fl) };
         r.viol(sec, &sig, case, d);
     }
+}
+
+const BEHAVIOUR_PROBES: [i64; 4] = [-2_000_000_000, 0, 1_700_000_000, 4_000_000_000];
+
+fn same_behaviour(a: &TimeZone, b: &TimeZone) -> Result<(), String> {
+    for s in BEHAVIOUR_PROBES {
+        let ts = Timestamp::from_second(s).unwrap();
+        let (x, y) = (a.to_offset_info(ts), b.to_offset_info(ts));
+        if (x.offset(), x.dst(), x.abbreviation().to_string()) != (y.offset(), y.dst(), y.abbreviation().to_string()) {
+            return Err(format!("at {}: {:?} vs {:?}", s, x, y));
+        }
+    }
+    Ok(())
+}
+
+#[derive(Clone, Copy, PartialEq)]
+enum QKind {
+    Canonical,
+    Variant,
+    Cold,
+    Mutated,
+}
+
+/// The name battery for one database: `zones` is what the database holds
+/// (identifier -> bytes, from the harness's own knowledge). The oracle for a
+/// query `q` is the documentation of `TimeZoneDatabase::get`: it succeeds
+/// exactly when `q` equals, ignoring ASCII case, an identifier of the
+/// database (whose data loads), and then the zone carries the canonical
+/// spelling and is the zone of that identifier's data.
+fn names_battery(cx: &Ctx, sec: &str, be: &str, mk: &(dyn Fn() -> TimeZoneDatabase + Sync), zones: &[(String, Vec<u8>)], extra: &[String]) {
+    let (r, cfg) = (cx.r, cx.cfg);
+    let mut index: HashMap<String, usize> = HashMap::new();
+    let mut ambiguous: BTreeSet<String> = BTreeSet::new();
+    for (i, (n, _)) in zones.iter().enumerate() {
+        if index.insert(n.to_ascii_lowercase(), i).is_some() {
+            ambiguous.insert(n.to_ascii_lowercase());
+        }
+    }
+    r.count("names_that_differ_only_in_case_(not_queried)", ambiguous.len() as u64);
+    let refs: Vec<Option<TimeZone>> = zones.par_iter().map(|(n, b)| guard(|| TimeZone::tzif(n, b)).ok().and_then(|x| x.ok())).collect();
+    r.count("names_whose_data_does_not_load", refs.iter().filter(|x| x.is_none()).count() as u64);
+
+    let check = |db: &TimeZoneDatabase, q: &str, kind: QKind| {
+        if q == "UTC" || q == "Etc/Unknown" {
+            // built-in zones of the directory and concatenated back-ends
+            if !index.contains_key(&q.to_ascii_lowercase()) {
+                return;
+            }
+        }
+        let lower = q.to_ascii_lowercase();
+        if ambiguous.contains(&lower) {
+            return;
+        }
+        let case = if kind == QKind::Mutated { format!("{} {:?}", cfg, q) } else { format!("{} {}", cfg, q) };
+        let want = index.get(&lower).copied().filter(|&i| refs[i].is_some());
+        r.add_transitions(1);
+        if kind == QKind::Cold {
+            r.count("name_queries_on_a_cold_database", 1);
+        }
+        let suffix = if kind == QKind::Cold { ":cold-cache" } else { "" };
+        let got = match guard(|| db.get(q)) {
+            Err(pn) => {
+                r.viol(sec, &format!("{}/{}", be, panic_sig(&pn)), case, pn);
+                return;
+            }
+            Ok(x) => x,
+        };
+        match (want, got) {
+            (None, Err(_)) => {
+                r.add_validated(1);
+                r.count("name_queries_expected_unknown", 1);
+            }
+            (None, Ok(t)) => r.viol(sec, &format!("{}/unknown-name-found", be), case, format!("{:?}", t.iana_name())),
+            (Some(_), Err(e)) => {
+                let sig = if kind == QKind::Canonical { format!("{}/canonical-lookup-fails", be) } else { format!("{}/case-variant-not-found{}", be, suffix) };
+                r.viol(sec, &sig, case, e.to_string());
+            }
+            (Some(i), Ok(t)) => {
+                r.add_validated(1);
+                r.count("name_queries_expected_found", 1);
+                let name = zones[i].0.as_str();
+                let rf = refs[i].as_ref().unwrap();
+                if t.iana_name() != Some(name) {
+                    let sig = if kind == QKind::Canonical { format!("{}/iana_name-not-canonical", be) } else { format!("{}/case-variant-not-canonical-spelling{}", be, suffix) };
+                    r.viol(sec, &sig, case, format!("{:?} want {}", t.iana_name(), name));
+                } else if let Err(d) = same_behaviour(&t, rf) {
+                    r.viol(sec, &format!("{}/case-variant-different-zone{}", be, suffix), case, d);
+                } else if name != "UTC" && (t != *rf || *rf != t) {
+                    // documented equality: same identifier, same checksum
+                    r.viol(sec, &format!("{}/TimeZone-ne-tzif(bytes)-for-the-same-identifier-and-data{}", be, suffix), case, format!("{:?} != {:?}", t, rf));
+                }
+            }
+        }
+    };
+
+    // ---- listing
+    let db = mk();
+    let mut listed: Vec<String> = db.available().map(|n| n.as_str().to_string()).collect();
+    listed.sort();
+    let mut want: Vec<String> = zones.iter().map(|z| z.0.clone()).collect();
+    want.sort();
+    r.add_validated(1);
+    if listed.windows(2).any(|w| w[0] == w[1]) {
+        r.viol(sec, &format!("{}/available-lists-a-name-twice", be), format!("{} {}", cfg, be), format!("{:?}", listed.windows(2).find(|w| w[0] == w[1]).map(|w| w[0].clone())));
+    }
+    if be == "zoneinfo-dir" {
+        for w in &want {
+            if listed.binary_search(w).is_err() {
+                r.viol(sec, "zoneinfo-dir/available-misses-name", format!("{} {}", cfg, w), "not listed");
+            }
+        }
+        for l in &listed {
+            if want.binary_search(l).is_err() {
+                r.viol(sec, "zoneinfo-dir/available-lists-a-name-without-a-TZif-file", format!("{} {}", cfg, l), "listed");
+            }
+        }
+    } else if listed != want {
+        r.viol(sec, &format!("{}/available-differs", be), format!("{} {}", cfg, be), format!("{} listed vs {} expected", listed.len(), want.len()));
+    }
+
+    // ---- warm database: canonical first, then every variant and mutation
+    zones.par_iter().for_each(|(name, _)| {
+        check(&db, name, QKind::Canonical);
+        let mut variants = vec![name.to_ascii_lowercase(), name.to_ascii_uppercase(), alternating(name), alternating2(name), flip_first(name), flip_around_separators(name)];
+        let letters = name.bytes().filter(|b| b.is_ascii_alphabetic()).count();
+        if rep_small(name) || name.len() <= 6 || (cx.thorough && letters <= 10) {
+            variants.extend(all_case_variants(name));
+        }
+        variants.sort();
+        variants.dedup();
+        for v in variants {
+            check(&db, &v, QKind::Variant);
+        }
+        let mut bad = vec![
+            format!("{}x", name),
+            format!("{}/", name),
+            format!(" {}", name),
+            format!("{} ", name),
+            format!("./{}", name),
+            format!("/{}", name),
+            format!("{}/{}", SYS, name),
+            format!("{}/.", name),
+            format!("{}/..", name),
+            format!("x/../{}", name),
+            format!("{}\0", name),
+            name[..name.len() - 1].to_string(),
+        ];
+        if name.contains('/') {
+            bad.push(name.replace('/', "//"));
+            bad.push(name.replace('/', "\\"));
+            bad.push(name.replace('/', "_"));
+        }
+        // neighbouring separators: a different identifier, known or not
+        for (i, c) in name.char_indices() {
+            if matches!(c, '_' | '-' | '+') {
+                for rep in ['_', '-', '+', ' '] {
+                    if rep != c {
+                        let mut b = name.as_bytes().to_vec();
+                        b[i] = rep as u8;
+                        bad.push(String::from_utf8(b).unwrap());
+                    }
+                }
+            }
+        }
+        for q in bad {
+            check(&db, &q, QKind::Mutated);
+        }
+    });
+    for bad in ["", "Does/Not_Exist", "America", "America/", "/", ".", "..", "../zoneinfo/UTC", "America/New_York\0", "Etc/GMT+", "Etc", "posix", "right/", "posix/", "/usr/share/zoneinfo/UTC", "UTC/", "utc\0", "Ｕtc", "America/New_York/America/New_York"] {
+        check(&db, bad, QKind::Mutated);
+    }
+    extra.par_iter().for_each(|q| check(&db, q, QKind::Mutated));
+
+    // ---- cold databases: the first query ever made for an identifier is a
+    // case variant (the warm passes above find variants in the cache of zones
+    // loaded under their canonical spelling)
+    let kinds: [fn(&str) -> String; 6] = [|s| s.to_ascii_lowercase(), |s| s.to_ascii_uppercase(), alternating, alternating2, flip_first, flip_around_separators];
+    for f in kinds {
+        let db = mk();
+        zones.par_iter().for_each(|(name, _)| check(&db, &f(name), QKind::Cold));
+    }
+    if !extra.is_empty() {
+        let db = mk();
+        extra.par_iter().for_each(|q| check(&db, q, QKind::Cold));
+    }
+}
+
+fn alternating2(s: &str) -> String {
+    s.chars().enumerate().map(|(i, c)| if i % 2 == 1 { c.to_ascii_uppercase() } else { c.to_ascii_lowercase() }).collect()
+}
+/// Flips the case of the letters next to a separator (`/`, `_`, `-`, `+`).
+fn flip_around_separators(s: &str) -> String {
+    let b = s.as_bytes();
+    let sep = |c: u8| matches!(c, b'/' | b'_' | b'-' | b'+');
+    let out: Vec<u8> = (0..b.len())
+        .map(|i| {
+            let near = (i > 0 && sep(b[i - 1])) || (i + 1 < b.len() && sep(b[i + 1]));
+            if near && b[i].is_ascii_uppercase() {
+                b[i].to_ascii_lowercase()
+            } else if near && b[i].is_ascii_lowercase() {
+                b[i].to_ascii_uppercase()
+            } else {
+                b[i]
+            }
+        })
+        .collect();
+    String::from_utf8(out).unwrap()
 }
 
 fn alternating(s: &str) -> String {
@@ -693,6 +1307,104 @@ fn posix_strings(thorough: bool) -> Vec<String> {
                             }
                         }
                     }
+                }
+            }
+        }
+    }
+    out.retain(|s| {
+        let Ok(tz) = rtz::parse_posix(s.as_bytes()) else { return true };
+        if tz.dst.is_none() {
+            return true;
+        }
+        [2023i64, 2024, 2025].iter().all(|&y| {
+            let (a, b) = tz.year_transitions(y).unwrap();
+            let d = (a - b).abs();
+            let ylen = cal::days_in_year(y) * 86400;
+            d >= 16 * 86400 && ylen - d >= 16 * 86400
+        })
+    });
+    out
+}
+
+fn fmt_posix_hms(p: i64) -> String {
+    let sign = if p < 0 { "-" } else { "" };
+    let a = p.abs();
+    if a % 60 != 0 {
+        format!("{}{}:{:02}:{:02}", sign, a / 3600, a / 60 % 60, a % 60)
+    } else if a % 3600 != 0 {
+        format!("{}{}:{:02}", sign, a / 3600, a / 60 % 60)
+    } else {
+        format!("{}{}", sign, a / 3600)
+    }
+}
+
+/// The *spellings* of the POSIX grammar (what the printer has to normalise):
+/// quoted and unquoted abbreviations for both names, explicit `+`, leading
+/// zeros, minutes and seconds in offsets and rule times, negative and > 24 h
+/// rule times, explicit DST offsets equal / not equal to the default, negative
+/// DST, all three day forms at their limits.
+fn posix_shapes(thorough: bool) -> Vec<String> {
+    let abbrs: &[&str] = &["AAA", "ABCDEF", "abc", "<+05>", "<-0330>", "<A1B>", "<ABC>"];
+    let offs: &[&str] = &["0", "5", "+5", "05", "-5", "5:30", "-5:30", "5:00:15", "-5:30:15", "24:59:59", "-24:59:59", "0:00:01", "-0", "+00:00:00"];
+    let off_secs = |s: &str| -> i64 {
+        let (sg, rest) = match s.as_bytes()[0] {
+            b'-' => (-1, &s[1..]),
+            b'+' => (1, &s[1..]),
+            _ => (1, s),
+        };
+        let v: Vec<i64> = rest.split(':').map(|x| x.parse().unwrap()).collect();
+        sg * (v[0] * 3600 + v.get(1).copied().unwrap_or(0) * 60 + v.get(2).copied().unwrap_or(0))
+    };
+    let mut out = vec![];
+    for a in abbrs {
+        for o in offs {
+            out.push(format!("{}{}", a, o));
+        }
+    }
+    let dabbrs: &[&str] = &["DDD", "<+06>", "<-02>", "<D2D>"];
+    // DST offset relative to standard time (None = left out)
+    let deltas: &[Option<i64>] = &[None, Some(3600), Some(1800), Some(3615), Some(-3600), Some(7200)];
+    let (sa, so): (&[&str], &[&str]) = if thorough { (abbrs, offs) } else { (&["AAA", "<+05>", "<A1B>"], &["5", "-5:30", "5:00:15", "-24:59:59", "0", "+5"]) };
+    for a in sa {
+        for o in so {
+            for d in dabbrs {
+                for dl in deltas {
+                    let dst = match dl {
+                        None => String::new(),
+                        Some(dl) => {
+                            let p = off_secs(o) - dl;
+                            if p.abs() > 24 * 3600 + 3599 {
+                                continue;
+                            }
+                            fmt_posix_hms(p)
+                        }
+                    };
+                    out.push(format!("{}{}{}{},M3.2.0,M11.1.0", a, o, d, dst));
+                }
+            }
+        }
+    }
+    let pairs: &[(&str, &str)] = &[
+        ("J60", "J300"),
+        ("J1", "J200"),
+        ("J100", "J365"),
+        ("0", "200"),
+        ("59", "299"),
+        ("100", "364"),
+        ("M3.2.0", "M10.5.0"),
+        ("M1.1.0", "M6.5.6"),
+        ("M6.3.3", "M12.5.6"),
+        ("J60", "M10.5.0"),
+        ("M3.2.0", "299"),
+        ("M10.1.0", "M4.1.0"),
+    ];
+    let times: &[&str] = &["", "/2", "/+2", "/02", "/2:00:00", "/0", "/-0", "/2:30", "/2:00:15", "/-2:30:15", "/24", "/25", "/167:59:59", "/-167:59:59", "/7:05:09"];
+    let few: &[&str] = &["", "/0", "/-167:59:59"];
+    for (ds, de) in pairs {
+        for ts in times {
+            for te in times {
+                if thorough || few.contains(ts) || few.contains(te) {
+                    out.push(format!("AAA5DDD,{}{},{}{}", ds, ts, de, te));
                 }
             }
         }
